@@ -182,6 +182,9 @@ func evalAgainstModel(r *world.Run, strict bool, holders ...any) ([]problem, wor
 	}
 	exp := r.ExpectFor(pop, points, world.ExtraEdges(pop, skip))
 	switch r.Outcome() {
+	case "stalled":
+		ps = append(ps, problem{Kind: "stalled", Msg: "start-up hangs: " + r.OutcomeDetail()})
+		return ps, exp
 	case "diverged":
 		ps = append(ps, problem{Kind: "diverged", Msg: "start-up did not terminate within the step budget: " + r.Diverge.Error()})
 		return ps, exp
